@@ -39,7 +39,8 @@ Lemma apply_done_state c o c1 e1 :
   cdone c = true -> apply_op c o = Ok (c1, e1) -> c1 = c /\ e1 = [].
 Proof.
   intros Hd H. unfold apply_op in H. rewrite Hd in H.
-  destruct o; try discriminate. now inversion H.
+  destruct o; try discriminate; try (now inversion H).
+  destruct vs; [now inversion H|discriminate].
 Qed.
 
 Lemma step brk c o c1 e1 cp mx tl :
@@ -130,8 +131,10 @@ Proof.
     inversion H; subst; clear H. prj. cbn [app task_gen handle_event]. prj.
     rewrite !andb_true_r. destruct brk; reflexivity.
   - (* extend *)
-    inversion H; subst; clear H. prj. rewrite andb_false_r.
-    apply task_pushes. exact Hmx.
+    destruct vs as [|v0 vs].
+    + inversion H; subst. prj. now rewrite andb_false_r.
+    + inversion H; subst; clear H. prj. rewrite andb_false_r.
+      exact (task_pushes brk (v0 :: vs) l cp mx tl Hmx).
 Qed.
 
 (** ** runs *)
@@ -286,7 +289,8 @@ Lemma apply_done_iff c o c1 e1 :
   apply_op c o = Ok (c1, e1) -> cdone c1 = true <-> (cdone c = true \/ o = MarkDone).
 Proof.
   intros H. unfold apply_op in H. destruct (cdone c) eqn:Hd.
-  - destruct o; try discriminate. inversion H; subst. tauto.
+  - destruct o; try discriminate; [inversion H; subst; tauto|].
+    destruct vs; [|discriminate]. inversion H; subst. split; [tauto|]. intros [?|?]; [assumption|discriminate].
   - destruct c as [l d]. prj. subst d.
     destruct o; prj;
       repeat match type of H with
